@@ -149,7 +149,36 @@ def m_kfault_log(pre, ev, post):
                     yield (v[0], 'kfault:' + v[1], v[2])
 
 
-MONITORS = [m_log, m_kfault_log]
+def m_ksock_log(pre, ev, post):
+    """the same with the netlink socket itself failing at each NEWSA (the request, keys included, never reaches the kernel)"""
+    for name in sorted(post.endpoints):
+        new = post.endpoints[name].kernel.log[len(pre.endpoints[name].kernel.log):]
+        for j, r in enumerate(new):
+            if r[1] and r[1]['type'] == K.XFRM_MSG_NEWSA:
+                w = pre.fork()
+                w.endpoints[name].kernel.sock_fail_next(j, 105)
+                w.history.append(('ksockfail', name, j, 105))
+                P.apply_event(w, ev)
+                C.COVER['ksock-reexecutions'] += 1
+                for v in m_log(pre, ev, w):
+                    yield (v[0], 'ksock:' + v[1], v[2])
+
+
+def m_sendfail_log(pre, ev, post):
+    """every transition in which an endpoint sends something, re-executed with that sendto() failing (network unreachable)"""
+    for name in sorted(post.endpoints):
+        if not any(d.sender == name for d in post.step_emitted):
+            continue
+        w = pre.fork()
+        w.step(('sendfail', name, 0, 'ENETUNREACH'))
+        w.history.pop()
+        P.apply_event(w, ev)
+        C.COVER['sendfail-reexecutions'] += 1
+        for v in m_log(pre, ev, w):
+            yield (v[0], 'sendfail:' + v[1], v[2])
+
+
+MONITORS = [m_log, m_kfault_log, m_ksock_log, m_sendfail_log]
 
 
 def run(i):
@@ -181,6 +210,13 @@ def mismatch_confs():
     out.append(('responder-swapped-sections', base(b_over={'my_auth': {"id": "bob@openikev2", "psk": "testing"},
                                                            'peer_auth': {"id": "alice@openikev2", "psk": "testing2"}})))
     out.append(('one-key-for-both-directions', base(a_over={'my_auth': {"id": "alice@openikev2", "psk": "testing2"}})))
+    # a side that has both a private key and a pre-shared key configured (e.g. migrated from PSK to RSA)
+    both = {"id": "alice@openikev2", "privkey": S.PRIVKEY, "psk": "the-psk-that-is-no-longer-used"}
+    out.append(('rsa-and-psk-configured-together', base(a_over={'my_auth': both},
+                                                        b_over={'peer_auth': {"id": "alice@openikev2", "pubkey": S.PUBKEY}})))
+    out.append(('rsa-and-psk-configured-together:responder', base(b_over={'my_auth': {"id": "bob@openikev2", "privkey": S.PRIVKEY,
+                                                                                      "psk": "another-unused-psk"}},
+                                                                  a_over={'peer_auth': {"id": "bob@openikev2", "pubkey": S.PUBKEY}})))
     rsa_a = {"id": "alice@openikev2", "privkey": S.PRIVKEY}
     out.append(('rsa-ok', base(a_over={'my_auth': rsa_a}, b_over={'peer_auth': {"id": "alice@openikev2", "pubkey": S.PUBKEY}})))
     out.append(('rsa-method-mismatch', base(a_over={'my_auth': rsa_a})))
